@@ -73,13 +73,14 @@ impl IntensityLimits {
         }
     }
 
-    pub(crate) fn xml_string(&self) -> String {
+    /// The data type of the intensity record is needed to write scaled integer limits in its units.
+    pub(crate) fn xml_string(&self, data_type: Option<&RecordDataType>) -> String {
         let mut xml = String::from("<intensityLimits type=\"Structure\">\n");
         if let Some(min) = &self.intensity_min {
-            xml += &record_value_to_xml("intensityMinimum", min);
+            xml += &record_value_to_xml("intensityMinimum", min, data_type);
         }
         if let Some(max) = &self.intensity_max {
-            xml += &record_value_to_xml("intensityMaximum", max);
+            xml += &record_value_to_xml("intensityMaximum", max, data_type);
         }
         xml += "</intensityLimits>\n";
         xml
@@ -133,25 +134,31 @@ impl ColorLimits {
         }
     }
 
-    pub(crate) fn xml_string(&self) -> String {
+    /// The data types of the color records are needed to write scaled integer limits in their units.
+    pub(crate) fn xml_string(
+        &self,
+        red: Option<&RecordDataType>,
+        green: Option<&RecordDataType>,
+        blue: Option<&RecordDataType>,
+    ) -> String {
         let mut xml = String::from("<colorLimits type=\"Structure\">\n");
         if let Some(min) = &self.red_min {
-            xml += &record_value_to_xml("colorRedMinimum", min);
+            xml += &record_value_to_xml("colorRedMinimum", min, red);
         }
         if let Some(max) = &self.red_max {
-            xml += &record_value_to_xml("colorRedMaximum", max);
+            xml += &record_value_to_xml("colorRedMaximum", max, red);
         }
         if let Some(min) = &self.green_min {
-            xml += &record_value_to_xml("colorGreenMinimum", min);
+            xml += &record_value_to_xml("colorGreenMinimum", min, green);
         }
         if let Some(max) = &self.green_max {
-            xml += &record_value_to_xml("colorGreenMaximum", max);
+            xml += &record_value_to_xml("colorGreenMaximum", max, green);
         }
         if let Some(min) = &self.blue_min {
-            xml += &record_value_to_xml("colorBlueMinimum", min);
+            xml += &record_value_to_xml("colorBlueMinimum", min, blue);
         }
         if let Some(max) = &self.blue_max {
-            xml += &record_value_to_xml("colorBlueMaximum", max);
+            xml += &record_value_to_xml("colorBlueMaximum", max, blue);
         }
         xml += "</colorLimits>\n";
         xml
@@ -159,13 +166,23 @@ impl ColorLimits {
 }
 
 /// Converts a record value to a XML limit tag with the correct type
-fn record_value_to_xml(tag_name: &str, value: &RecordValue) -> String {
+fn record_value_to_xml(
+    tag_name: &str,
+    value: &RecordValue,
+    data_type: Option<&RecordDataType>,
+) -> String {
     match value {
         RecordValue::Integer(value) => {
             format!("<{tag_name} type=\"Integer\">{value}</{tag_name}>\n")
         }
         RecordValue::ScaledInteger(value) => {
-            format!("<{tag_name} type=\"ScaledInteger\">{value}</{tag_name}>\n")
+            // A scaled integer element stands for the raw value multiplied with its scale plus its offset.
+            // Limits of a scaled integer record are raw values of that record and need its scale and offset.
+            if let Some(RecordDataType::ScaledInteger { scale, offset, .. }) = data_type {
+                format!("<{tag_name} type=\"ScaledInteger\" scale=\"{scale}\" offset=\"{offset}\">{value}</{tag_name}>\n")
+            } else {
+                format!("<{tag_name} type=\"ScaledInteger\">{value}</{tag_name}>\n")
+            }
         }
         RecordValue::Single(value) => {
             format!("<{tag_name} type=\"Float\" precision=\"single\">{value}</{tag_name}>\n")
